@@ -442,7 +442,182 @@ def r86(ctx):
                 ctx.bad(rid, r, f"{name}: the job is appended to self.locked {len(doms)} times / inside a loop")
 
 
+# ------------------------------------------------------------------ R-8.7
+class _Units:
+    """Ensemble-index units: REL (0: offset removed - keys of `picked`, entries of
+    self.locked) versus ROW (1: row/column of the state matrix = REL + _offset,
+    the form stored in restart.toml).  parity(expr) in {0, 1, None (unknown)}."""
+
+    def __init__(self, f):
+        self.f = f
+        self.fl = flow_of(f)
+        self.busy = set()
+
+    @staticmethod
+    def merge(a, b):
+        if a is None:
+            return b
+        if b is None or a == b:
+            return a
+        return "mixed"
+
+    def parity(self, e, at, env=None, depth=0):
+        env = env or {}
+        if depth > 14 or e is None:
+            return None
+        P = lambda x, a=at, en=env: self.parity(x, a, en, depth + 1)
+        if is_self_attr(e, "_offset"):
+            return 1
+        if isinstance(e, ast.Constant):
+            return None
+        if isinstance(e, ast.BinOp) and isinstance(e.op, (ast.Add, ast.Sub)):
+            if is_self_attr(e.right, "_offset"):
+                a = P(e.left)
+                a = 0 if a is None else a
+                return a + 1 if isinstance(e.op, ast.Add) else a - 1 if isinstance(a, int) else a
+            if is_self_attr(e.left, "_offset") and isinstance(e.op, ast.Add):
+                a = P(e.right)
+                return (0 if a is None else a) + 1
+            a, b = P(e.left), P(e.right)
+            if b is None:
+                return a
+            if a is None:
+                return b
+            return None
+        if isinstance(e, ast.Call):
+            fn = dotted(e.func)
+            if fn in ("int", "list", "tuple", "sorted", "np.int64", "float") and e.args:
+                return P(e.args[0])
+            return None
+        if isinstance(e, (ast.Tuple, ast.List)):
+            k = None
+            for x in e.elts:
+                k = self.merge(k, P(x))
+            return k
+        if isinstance(e, (ast.ListComp, ast.GeneratorExp)):
+            env2 = dict(env)
+            for g in e.generators:
+                it = self.parity(g.iter, at, env2, depth + 1)
+                for t in ast.walk(g.target):
+                    if isinstance(t, ast.Name):
+                        env2[t.id] = it
+            return self.parity(e.elt, at, env2, depth + 1)
+        if isinstance(e, ast.Subscript):
+            base = e.value
+            bp = path_of(base)
+            if bp in ("self.locked0",) or (bp and bp.endswith("['current']['locked']")):
+                return 1
+            if bp == "self.locked":
+                return 0
+            # tup[0] where tup iterates one of the records
+            if isinstance(e.slice, ast.Constant) and e.slice.value == 0:
+                return P(base)
+            if isinstance(e.slice, ast.Constant) and e.slice.value == 1:
+                return None
+            return P(base)
+        if isinstance(e, ast.Attribute):
+            p = path_of(e)
+            if p == "self.locked0":
+                return 1
+            if p == "self.locked":
+                return 0
+            return None
+        if isinstance(e, ast.Name):
+            if e.id in env:
+                return env[e.id]
+            key = (e.id, at.id)
+            if key in self.busy:
+                return None
+            self.busy.add(key)
+            k = None
+            for d, sfx in self.fl.rd(e.id, at):
+                kk = None
+                if d.kind in ("assign", "walrus") and isinstance(d.value, ast.AST):
+                    kk = self.parity(d.value, d.at, {}, depth + 1)
+                elif d.kind == "aug" and isinstance(d.value, ast.AugAssign):
+                    v = d.value
+                    if is_self_attr(v.value, "_offset"):
+                        prev = None
+                        for d2, _ in self.fl.rd(e.id, d.at):
+                            if d2.kind == "assign":
+                                prev = self.merge(prev, self.parity(d2.value, d2.at, {}, depth + 1))
+                        prev = 0 if prev is None else prev
+                        kk = prev + (1 if isinstance(v.op, ast.Add) else -1) if isinstance(prev, int) else prev
+                elif d.kind == "iter":
+                    it = d.value
+                    if isinstance(it, ast.Call) and dotted(it.func) == "zip" and d.index and d.index[0] < len(it.args):
+                        kk = self.parity(it.args[d.index[0]], d.at, {}, depth + 1)
+                    elif isinstance(it, ast.Call) and dotted(it.func) == "enumerate" and d.index == (1,):
+                        kk = self.parity(it.args[0], d.at, {}, depth + 1)
+                    elif not d.index:
+                        kk = self.parity(it, d.at, {}, depth + 1)
+                elif d.kind == "unpack" and isinstance(d.value, ast.Call):
+                    fn = dotted(d.value.func)
+                    if fn.endswith("divmod"):
+                        kk = 1
+                    elif fn == "self.locked0.pop" and d.index == (0,):
+                        kk = 1
+                k = self.merge(k, kk)
+            # lists filled by append in this function
+            for c in walk_local(self.f):
+                if isinstance(c, ast.Call) and isinstance(c.func, ast.Attribute) and c.func.attr == "append" and path_of(c.func.value) == e.id and c.args:
+                    if self.fl.cfg.nodes_of(c):
+                        k = self.merge(k, self.parity(c.args[0], self.fl.cfg.node_of(c), {}, depth + 1))
+            self.busy.discard(key)
+            return k
+        return None
+
+
+def r87(ctx):
+    rid = "R-8.7"
+    tree = ctx.tree
+    cls = tree.cls(REPEX, "REPEX_state")
+    n = 0
+    for f in [s for s in cls.body if isinstance(s, FUNC)]:
+        U = None
+        for c in walk_local(f):
+            if not isinstance(c, ast.Call) or not isinstance(c.func, ast.Attribute):
+                continue
+            U = U or _Units(f)
+            if not U.fl.cfg.nodes_of(c):
+                continue
+            at = U.fl.cfg.node_of(c)
+            # (a) entries of the in-flight record are offset-removed
+            if c.func.attr == "append" and path_of(c.func.value) == "self.locked" and c.args and isinstance(c.args[0], ast.Tuple) and c.args[0].elts:
+                p = U.parity(c.args[0].elts[0], at)
+                n += 1
+                if p in (1, "mixed"):
+                    ctx.bad(rid, c, f"{f.name}: the ensemble numbers appended to the in-flight record self.locked still include the [0-] offset (state-matrix rows); "
+                            "write_toml adds the offset again, so after the next commit restart.toml names the running job one ensemble too high and a later restart re-issues it in the wrong ensemble",
+                            construct=short(c, 80))
+                else:
+                    ctx.ok(rid, c, f"{f.name}: in-flight record entry uses offset-removed ensemble numbers (unit {p})")
+            # (c) busy flags / swap are indexed by state-matrix rows
+            if is_self_attr(c.func) and c.func.attr in ("lock", "unlock", "pick_traj_ens") and c.args:
+                p = U.parity(c.args[0], at)
+                if p is not None:
+                    n += 1
+                    if p == 0:
+                        ctx.bad(rid, c, f"{f.name}: {c.func.attr}() is given an offset-removed ensemble number where a state-matrix row is expected: the wrong ensemble is flagged busy")
+                    else:
+                        ctx.ok(rid, c, f"{f.name}: {c.func.attr}() indexed by a state-matrix row (unit {p})")
+        # (b) what write_toml stores under current.locked includes the offset
+        if f.name == "write_toml":
+            U = U or _Units(f)
+            for d in U.fl.defs:
+                if d.path.endswith("['current']['locked']") and d.kind == "assign":
+                    p = U.parity(d.value, d.at)
+                    n += 1
+                    if p == 1:
+                        ctx.ok(rid, d.stmt, "write_toml stores the in-flight ensembles as state-matrix rows (+_offset), the unit pick_lock reads back")
+                    else:
+                        ctx.bad(rid, d.stmt, f"write_toml stores the in-flight ensemble numbers without adding the [0-] offset (unit {p}) although pick_lock subtracts it when re-issuing: re-issued jobs run in the wrong ensemble")
+    if n < 4:
+        raise AnalysisError(f"R-8.7: only {n} unit obligations could be formed")
+
+
 def run(ctx):
+    ctx.rule("R-8.7", "one ensemble-index unit per store: self.locked entries offset-removed, restart.toml's locked and lock()/swap() indices in state-matrix rows", floor=4)
     ctx.rule("R-8.1", "store before commit: numbered path reaches write_toml only through pstore.output; output() performs mkdir, txt files and moves on every path", floor=4)
     ctx.rule("R-8.2", "atomic commit: dump to a temporary name, os.replace over the file setup_config reads", floor=1)
     ctx.rule("R-8.3", "only retired paths are deleted: operands from the FIFO head, insertion after deletion, lag and initial-path guards", floor=5)
@@ -455,6 +630,7 @@ def run(ctx):
     ctx.attempt(r84, ctx)
     ctx.attempt(r85, ctx)
     ctx.attempt(r86, ctx)
+    ctx.attempt(r87, ctx)
 
 
 VARIANTS = [
@@ -477,6 +653,10 @@ VARIANTS = [
     B("c08-reissue-not-recorded", REPEX, "        self.locked.append((enss, trajs0))\n", "", "R-8.6", control=True, why="pre-fix D10"),
     B("c08-pick-not-recorded", REPEX, "        self.locked.append((list(ens_nums), pat_nums))\n", "", "R-8.6"),
     B("c08-reissue-recorded-per-ensemble", REPEX, "            self.lock(ens)\n            trajs.append(self._trajs[ens])\n", "            self.lock(ens)\n            trajs.append(self._trajs[ens])\n            self.locked.append((enss, trajs0))\n", "R-8.6"),
+    B("c08-reissue-recorded-with-offset", REPEX, "        self.locked.append((enss, trajs0))\n", "        self.locked.append((enss0, trajs0))\n", "R-8.7", control=True, why="seeded C08_b"),
+    B("c08-commit-without-offset", REPEX, "([int(tup0 + self._offset) for tup0 in tup[0]], tup[1])", "([int(tup0) for tup0 in tup[0]], tup[1])", "R-8.7"),
+    B("c08-reissue-lock-wrong-unit", REPEX, "            self.swap(traj_idx, ens)\n            self.lock(ens)\n", "            self.swap(traj_idx, ens)\n            self.lock(ens - self._offset)\n", "R-8.7"),
+    K("c08-keep-offset-via-local", REPEX, "            enss.append(ens - self._offset)\n", "            rel = ens - self._offset\n            enss.append(rel)\n"),
     K("c08-keep-tmp-name-constant", REPEX, '        with open("./restart.toml.tmp", "wb") as f:\n            tomli_w.dump(self.config, f)\n        os.replace("./restart.toml.tmp", "./restart.toml")', '        tmp_name = "restart.toml" + ".tmp"\n        with open(tmp_name, "wb") as f:\n            tomli_w.dump(self.config, f)\n        os.replace(tmp_name, "restart.toml")'),
     K("c08-keep-initial-guard-ge", REPEX, "                    and pn_old > self.n - 2\n", "                    and pn_old >= self.n - 1\n"),
     K("c08-keep-rename-os-rename", REPEX, 'os.replace("./restart.toml.tmp", "./restart.toml")', 'os.rename("./restart.toml.tmp", "./restart.toml")'),
